@@ -339,7 +339,7 @@ func main() {
 	}
 	for _, warm := range []bool{false, true} {
 		for _, pre := range prefixes {
-			for k := 0; k < 6; k++ {
+			for k := 0; k < 8; k++ {
 				h := wordHistory(warm, pre)
 				b := &builder{nsrc: 2, ops: h.Ops}
 				switch k {
@@ -369,6 +369,19 @@ func main() {
 					b.ops = append(b.ops, pcdrv.Set(0, P, 50), pcdrv.Set(0, Q, 50))
 					o := pcdrv.Refresh()
 					o.MissDuring = 3
+					b.ops = append(b.ops, o)
+				case 6:
+					// a lookup of an uncached provider whose Fetch answer (an OLD record) is
+					// already on its way when the source learns a newer one and a Refresh
+					// request arrives: the refresh can only run after the miss has stored
+					b.ops = append(b.ops, pcdrv.Set(0, 3, 1))
+					o := pcdrv.Get(3)
+					o.DuringMiss, o.DSet, o.DSrc, o.DTime = true, true, 0, 9
+					b.ops = append(b.ops, o)
+				case 7:
+					// the same with "not found" on its way when the provider appears
+					o := pcdrv.Get(3)
+					o.DuringMiss, o.DSet, o.DSrc, o.DTime = true, true, 0, 9
 					b.ops = append(b.ops, o)
 				}
 				b.ops = append(b.ops, pcdrv.Get(P), pcdrv.Refresh(), pcdrv.Get(Q))
